@@ -96,9 +96,14 @@ theorem stopCore_pres : Pres cfg (stopCore cfg inner) := by
     stopBlockProc_stopping_procNone hpn _ st1
   have q3 := stopRetry_quiet _ p2
   have q4 := stopTail_pn quiet_ok hqt (cfg := cfg) q3
+  -- … no uncancelled request is outstanding and no reply is parked
+  have c2 := stopBlockProc_stopping_calm (cfg := cfg) hc hpn (stopReq cfg { s with stopping := true }) st1
+    (stopReq_calm cfg _) (by rw [stopReq_parked, k0.2.2.1]; exact hs.sf.parkedBlock)
+  have c4 := stopTail_pn calm_ok hc (cfg := cfg) (stopRetry_calm _ c2)
   unfold stopCore
   simp only []
   exact stopFinish_good ((stopTimers_pres cfg).step ((stopCommitReq_pres hin).step ((cancelWaiters_pres hin _).step h3))) q4.2
+    c4.2.1 c4.2.2
 
 omit hin hc in
 theorem stopCore_startD (s : St) : (stopCore cfg inner s).startD = .none := by
